@@ -2852,13 +2852,25 @@ class ArrayInterp(Interp):
             self.unsupported("%s with starred arguments" % qn, e, fr)
         if qn in ("numpy.logical_or", "numpy.logical_and", "numpy.logical_xor", "numpy.ma.mask_or", "numpy.ma.logical_or", "numpy.ma.logical_and"):
             x, y = (A + [None, None])[:2]
+            out_l = K.get("out", A[2] if len(A) > 2 and not qn.endswith("mask_or") else None)
+            if isinstance(out_l, Arr):
+                # the accumulator of an in-place mask union: `getmaskarray(x)` IS x's own mask whenever x carries a real one
+                # (numpy.ma.getmaskarray returns `arr._mask` unless it is nomask), so the write lands in the input (write_site adds maskof)
+                self.write_site(out_l, e, "out= of %s" % qn, fr)
             if isinstance(x, Arr) and isinstance(y, Arr):
                 op = ast.BitOr() if qn.endswith("or") and not qn.endswith("xor") else (ast.BitXor() if qn.endswith("xor") else ast.BitAnd())
                 r = self.binop_arr(x, y, op, e, fr)
                 M = (x.M | y.M) if isinstance(op, ast.BitOr) else (x.M & y.M)
                 both_masks = bool(x.isbool and y.isbool)
-                return replace(r, isbool=True, dt=B_, M=M if both_masks else r.M, kind=r.kind if ".ma." in qn and not qn.endswith("mask_or") else ("plain" if both_masks and x.kind != "masked" and y.kind != "masked" else r.kind),
-                               maskof=x.maskof | y.maskof if both_masks else E, freshmask=not qn.endswith("mask_or"))  # (mask_or may hand back one of its operands)
+                r = replace(r, isbool=True, dt=B_, M=M if both_masks else r.M, kind=r.kind if ".ma." in qn and not qn.endswith("mask_or") else ("plain" if both_masks and x.kind != "masked" and y.kind != "masked" else r.kind),
+                            maskof=x.maskof | y.maskof if both_masks else E, freshmask=not qn.endswith("mask_or"))  # (mask_or may hand back one of its operands)
+                if isinstance(out_l, Arr):
+                    # the union lands in the accumulator: the name given as out= holds the result from here on (same storage as before)
+                    r = replace(r, alias=out_l.alias, maskof=(r.maskof | out_l.maskof), freshmask=out_l.freshmask)
+                    outnode_l = next((k_.value for k_ in e.keywords if k_.arg == "out"), e.args[2] if len(e.args) > 2 else None)
+                    if isinstance(outnode_l, ast.Name) and isinstance(fr.env.get(outnode_l.id), Arr):
+                        self.rebind(outnode_l, fr.env[outnode_l.id], r, fr)
+                return r
             if isinstance(x, Arr) or isinstance(y, Arr):
                 arr = x if isinstance(x, Arr) else y
                 return replace(arr, isbool=True, dt=B_, alias=S(), M=arr.M if qn.endswith("or") else E)
